@@ -501,9 +501,8 @@ def r_bitmap(ctx, rule='R-BITMAP'):
                                                                   'RoaringBitmap>::push', 'RoaringBitmap>::clear', 'remove_smallest', 'remove_biggest', 'RoaringBitmap>::remove_range')):
                     if any(paths.mentions_call(x.arg_term(0), st) for st in sites):
                         muts.append((short(x.callee), strip(x.arg_term(1)) if len(x.args) > 1 else None, x))
-            good = len(muts) == 1 and muts[0][1] is not None and muts[0][1][0] == 'arg' and (
-                (muts[0][0] == 'bitor_assign' and f.local_name(muts[0][1][1]) == 'to_insert') or
-                (muts[0][0] == 'sub_assign' and f.local_name(muts[0][1][1]) == 'to_delete'))
+            good = len(muts) == 1 and muts[0][1] is not None and muts[0][1][0] == 'arg' and 'RoaringBitmap' in f.local_ty(muts[0][1][1]) and (
+                muts[0][0] in ('bitor_assign', 'sub_assign'))
             # stored back under the id it was read from
             same_id = False
             for g in [x for x in walk(bt) if x[0] == 'call' and x[1].endswith('::get') and x[2]]:
@@ -1204,7 +1203,12 @@ def r_tree_count(ctx, rule='R-NTREES'):
             subs = [x for x in g.calls() if x.callee.endswith('::saturating_sub')]
             rm = [x for x in g.calls() if x.callee.endswith(('::swap_remove', '::remove', '::pop'))]
             dt = [x for x in g.calls() if x.callee.startswith('writer::Writer') and x.callee != g.path]
-            bound_a = bool(subs) and any('roots' in show(x.arg_term(0)) and 'target' in show(x.arg_term(1)) for x in subs)
+            def is_roots(t):
+                return any(y[0] == 'arg' and 'Vec<u32>' in g.local_ty(y[1]) for y in walk(t))
+
+            def is_target(t):
+                return any(y[0] == 'arg' and g.local_ty(y[1]) in ('u64', 'usize') for y in walk(t))
+            bound_a = bool(subs) and any(is_roots(x.arg_term(0)) and is_target(x.arg_term(1)) for x in subs)
             bound_b = False
             for b0 in g.live_blocks():
                 for x0 in g.succ(b0):
@@ -1212,10 +1216,10 @@ def r_tree_count(ctx, rule='R-NTREES'):
                     if e and e[0] == 'bool':
                         c0 = strip(e[1])
                         if c0[0] == 'binop' and c0[1] in ('Gt', 'Lt', 'Ge', 'Le'):
-                            txt = (show(c0[2]), show(c0[3]))
-                            if any('len(' in t and 'roots' in t for t in txt) and any('target' in t for t in txt):
+                            sides = (c0[2], c0[3])
+                            if any(is_roots(t) and any(y[0] == 'call' and y[1].endswith('::len') for y in walk(t)) for t in sides) and any(is_target(t) and not is_roots(t) for t in sides):
                                 # `roots.len() > target` keeps looping (or its mirrored spelling)
-                                keep = (c0[1] == 'Gt' and 'roots' in txt[0]) or (c0[1] == 'Lt' and 'roots' in txt[1])
+                                keep = (c0[1] == 'Gt' and is_roots(sides[0])) or (c0[1] == 'Lt' and is_roots(sides[1]))
                                 if keep and e[2] and rm and rm[0].bb in g.reachable(x0):
                                     bound_b = True
             okk = (bound_a or bound_b) and bool(rm) and bool(dt)
